@@ -33,7 +33,13 @@ func (prog *Progress) init() {
 	if prog.Cfg == nil {
 		prog.Cfg = &Config{}
 	}
-	prog.Cfg.init()
+	if prog.Cfg.Ctx == nil || prog.Cfg.LinkTargetNodePrototypeChooser == nil {
+		// Fill the defaults into a copy of our own: the caller's Config may be
+		// shared by walks running in other goroutines and must only be read.
+		cfg := *prog.Cfg
+		cfg.init()
+		prog.Cfg = &cfg
+	}
 	if prog.Cfg.LinkVisitOnlyOnce {
 		prog.SeenLinks = make(map[datamodel.Link]struct{})
 	}
